@@ -22,7 +22,7 @@ META = dict(
 
 def run(ctx):
     ctx.lean_proofs("Props.C12")
-    factslib.run_facts(ctx, verif, EXPECTED, {"range-map", "time-now", "go-stmt", "select", "rand"}, "F1-nondeterminism-sites")
+    factslib.run_facts(ctx, verif, EXPECTED, {"range-map", "wall-clock", "go-stmt", "select", "rand"}, "F1-nondeterminism-sites")
     ctx.rule("c12: (a) pure stream: 400 (quick) generated delegator maps (0-4 entries over 6 addresses, shares from {0,1,5,10,25,33,50,60,99,100}, ~7% non-hex and ~7% wrong-length keys) "
              "and rewards from {0,-5,1,7,99,100,101,12345,1e9+7,1e12-1} through the real NormalizeRewardDelegators/SplitNodeRewards; (b) histories executed 5 times in fresh processes: "
              "generic (chain.World.GenBlock, 4-11 blocks; block 1 runs every module's ConvertState in map order), delegators (proposer edit-stakes with 4 reward delegators without "
